@@ -209,6 +209,10 @@ impl Parser {
                 self.end_node();
             }
             _ => {
+                // The kind was determined by looking past a label and `postponed`.
+                // Consume them, so that the next token is the unexpected one.
+                self.opt_label();
+                self.opt_token(Keyword(Kw::Postponed));
                 self.expect_tokens_recover([
                     Keyword(Kw::Block),
                     Keyword(Kw::Process),
